@@ -1,3 +1,475 @@
 import KoordVerif.Model.C19
+import KoordVerif.Proofs.C19Numa
+import KoordVerif.Proofs.C19Cpuset
+import KoordVerif.Proofs.C19Dev
+import KoordVerif.Proofs.C19Rsv
+/-
+C19 — scheduler allocation state survives a restart unchanged.  Property theorems.
+
+Part N (this file, NUMA ledger of nodenumaresource): exactness of the ledger over every history,
+live = rebuilt, order independence, duplicate add / same-allocation update are no-ops, nothing
+taken is free, the exclusive-policy marker counterexample.
+Part C (cpuset text codec) and the persist/restore round trip follow below.
+-/
 namespace KoordVerif.C19
+
+/-! ## N. the NUMA ledger over all histories -/
+
+/-- ledger-level events: `upd a` = Reserve / informer add / informer update carrying allocation `a`
+    (`resourceManager.Update`), `rel uid` = Unreserve / delete / terminate (`Release`). -/
+inductive Ev where
+  | upd (a : PodAlloc)
+  | rel (uid : Nat)
+
+def stepEv (topo : List Nat) (s : St) : Ev → St
+  | .upd a => update topo s a
+  | .rel uid => release topo s uid
+
+def run (topo : List Nat) (evs : List Ev) : St := evs.foldl (stepEv topo) St.init
+
+/-- the surviving allocations of a history, defined without any ledger: the last allocation of
+    every uid that was not released afterwards. -/
+def survStep (ps : List PodAlloc) : Ev → List PodAlloc
+  | .upd a => a :: erasePod a.uid ps
+  | .rel uid => erasePod uid ps
+
+def survivors (evs : List Ev) : List PodAlloc := evs.foldl survStep []
+
+/-- a fresh cache fed the allocations `l` one after the other (informer replay). -/
+def build (topo : List Nat) (l : List PodAlloc) : St := run topo (l.map Ev.upd)
+
+def GoodEvs (evs : List Ev) : Prop := ∀ a, Ev.upd a ∈ evs → Good a
+
+theorem run_inv_pods (topo : List Nat) (evs : List Ev) (h : GoodEvs evs) :
+    Inv (run topo evs) ∧ (run topo evs).pods = survivors evs := by
+  unfold run survivors
+  suffices H : ∀ (s : St) (ps : List PodAlloc), Inv s → s.pods = ps →
+      Inv (evs.foldl (stepEv topo) s) ∧ (evs.foldl (stepEv topo) s).pods = evs.foldl survStep ps from
+    H St.init [] inv_init rfl
+  induction evs with
+  | nil => intro s ps hs hp; exact ⟨hs, hp⟩
+  | cons e es ih =>
+    intro s ps hs hp
+    have hes : GoodEvs es := fun a ha => h a (by simp [ha])
+    simp only [List.foldl_cons]
+    cases e with
+    | upd a =>
+      have ha : Good a := h a (by simp)
+      exact ih hes _ _ (inv_update topo s a hs ha) (by rw [← hp]; exact pods_update topo s a hs.nodup)
+    | rel uid =>
+      exact ih hes _ _ (inv_release topo s uid hs) (by rw [← hp]; exact pods_release topo s uid)
+
+/-- **Ledger exactness over every history**: after any sequence of updates and releases (with
+    non-negative amounts) the RefCount of every CPU and the amount on every NUMA node are exactly
+    the from-scratch sums over the recorded allocations, whose uids are distinct. -/
+theorem ledger_exact (topo : List Nat) (evs : List Ev) (h : GoodEvs evs) : Inv (run topo evs) :=
+  (run_inv_pods topo evs h).1
+
+/-- the recorded allocations after a history are exactly its survivors. -/
+theorem pods_eq_survivors (topo : List Nat) (evs : List Ev) (h : GoodEvs evs) :
+    (run topo evs).pods = survivors evs :=
+  (run_inv_pods topo evs h).2
+
+theorem survivors_build (l acc : List PodAlloc)
+    (hl : (l.map (·.uid)).Nodup) (hd : ∀ a ∈ l, a.uid ∉ acc.map (·.uid)) :
+    (l.map Ev.upd).foldl survStep acc = l.reverse ++ acc := by
+  induction l generalizing acc with
+  | nil => simp
+  | cons a as ih =>
+    simp only [List.map_cons, List.nodup_cons] at hl
+    simp only [List.map_cons, List.foldl_cons, survStep]
+    rw [erasePod_of_not_mem a.uid acc (hd a (by simp))]
+    rw [ih (a :: acc) hl.2]
+    · simp
+    · intro b hb
+      simp only [List.map_cons, List.mem_cons, not_or]
+      refine ⟨fun e => hl.1 ?_, hd b (by simp [hb])⟩
+      rw [← e]; exact List.mem_map.2 ⟨b, hb, rfl⟩
+
+theorem good_build (l : List PodAlloc) (hg : ∀ a ∈ l, Good a) : GoodEvs (l.map Ev.upd) := by
+  intro a ha
+  simp only [List.mem_map] at ha
+  obtain ⟨b, hb, e⟩ := ha
+  have hba : b = a := by injection e
+  subst hba
+  exact hg b hb
+
+theorem pods_build (topo : List Nat) (l : List PodAlloc)
+    (hl : (l.map (·.uid)).Nodup) (hg : ∀ a ∈ l, Good a) : (build topo l).pods = l.reverse := by
+  unfold build
+  rw [pods_eq_survivors topo _ (good_build l hg)]
+  unfold survivors
+  rw [survivors_build l [] hl (by simp)]
+  simp
+
+/-- **T3 order independence**: fresh caches fed the same annotated objects (distinct uids) in two
+    different informer delivery orders are observationally equal. -/
+theorem ledger_order_independent (topo : List Nat) (maxRef : Nat) (l₁ l₂ : List PodAlloc)
+    (hp : l₁.Perm l₂) (hl : (l₁.map (·.uid)).Nodup) (hg : ∀ a ∈ l₁, Good a) :
+    ObsEq topo maxRef (build topo l₁) (build topo l₂) := by
+  have hl2 : (l₂.map (·.uid)).Nodup := (hp.map _).nodup_iff.1 hl
+  have hg2 : ∀ a ∈ l₂, Good a := fun a ha => hg a (hp.mem_iff.2 ha)
+  refine obsEq_of_inv topo maxRef (ledger_exact topo _ (good_build l₁ hg)) (ledger_exact topo _ (good_build l₂ hg2)) ?_
+  rw [pods_build topo l₁ hl hg, pods_build topo l₂ hl2 hg2]
+  exact (List.reverse_perm l₁).trans (hp.trans (List.reverse_perm l₂).symm)
+
+/-- **T4 live = rebuilt**: for EVERY history of the live scheduler (cut at any point), a fresh cache
+    fed the surviving allocations in ANY order is observationally equal to the live cache: same
+    RefCount for every CPU, same amounts on every NUMA node, same available CPUs, same records. -/
+theorem live_eq_rebuilt (topo : List Nat) (maxRef : Nat) (evs : List Ev) (h : GoodEvs evs)
+    (l : List PodAlloc) (hl : l.Perm (survivors evs)) :
+    ObsEq topo maxRef (run topo evs) (build topo l) := by
+  have hinv := ledger_exact topo evs h
+  have hpods := pods_eq_survivors topo evs h
+  have hnd : (l.map (·.uid)).Nodup := by
+    have := hinv.nodup; rw [hpods] at this
+    exact (hl.map _).nodup_iff.2 this
+  have hg : ∀ a ∈ l, Good a := by
+    intro a ha
+    have : a ∈ (run topo evs).pods := by rw [hpods]; exact hl.mem_iff.1 ha
+    exact hinv.good a this
+  refine obsEq_of_inv topo maxRef hinv (ledger_exact topo _ (good_build l hg)) ?_
+  rw [hpods, pods_build topo l hnd hg]
+  exact hl.symm.trans (List.reverse_perm l).symm
+
+/-- **duplicate add is a no-op**: delivering the same allocation twice = once. -/
+theorem dup_add_noop (topo : List Nat) (maxRef : Nat) (s : St) (a : PodAlloc) (hs : Inv s) (ha : Good a) :
+    ObsEq topo maxRef (update topo (update topo s a) a) (update topo s a) := by
+  have h1 := inv_update topo s a hs ha
+  have h2 := inv_update topo _ a h1 ha
+  refine obsEq_of_inv topo maxRef h2 h1 ?_
+  rw [pods_update topo _ a h1.nodup, pods_update topo s a hs.nodup]
+  simp [erasePod]
+
+theorem perm_cons_erasePod {uid : Nat} {ps : List PodAlloc} {a : PodAlloc} (h : findPod uid ps = some a) :
+    (a :: erasePod uid ps).Perm ps := by
+  induction ps with
+  | nil => simp [findPod] at h
+  | cons p ps ih =>
+    simp only [findPod] at h
+    simp only [erasePod]
+    split at h
+    · next hp => cases h; simp [hp]
+    · next hp =>
+      simp only [hp, if_false]
+      exact (List.Perm.swap p a _).trans ((ih h).cons p)
+
+theorem findPod_of_mem {ps : List PodAlloc} {a : PodAlloc} (hn : (ps.map (·.uid)).Nodup) (ha : a ∈ ps) :
+    findPod a.uid ps = some a := by
+  induction ps with
+  | nil => simp at ha
+  | cons p ps ih =>
+    simp only [List.map_cons, List.nodup_cons] at hn
+    simp only [findPod]
+    simp only [List.mem_cons] at ha
+    rcases ha with rfl | ha
+    · simp
+    · have : p.uid ≠ a.uid := fun e => hn.1 (by rw [e]; exact List.mem_map.2 ⟨a, ha, rfl⟩)
+      simp [this, ih hn.2 ha]
+
+/-- **same-allocation update is a no-op**: an update event carrying the allocation the cache already
+    records for that uid leaves the ledger observationally unchanged. -/
+theorem same_update_noop (topo : List Nat) (maxRef : Nat) (s : St) (a : PodAlloc) (hs : Inv s)
+    (ha : a ∈ s.pods) : ObsEq topo maxRef (update topo s a) s := by
+  have hg := hs.good a ha
+  refine obsEq_of_inv topo maxRef (inv_update topo s a hs hg) hs ?_
+  rw [pods_update topo s a hs.nodup]
+  exact perm_cons_erasePod (findPod_of_mem hs.nodup ha)
+
+theorem le_refSum_of_mem {ps : List PodAlloc} {a : PodAlloc} (ha : a ∈ ps) (c : Nat) :
+    a.cpus.count c ≤ refSum ps c := by
+  induction ps with
+  | nil => simp at ha
+  | cons p ps ih =>
+    simp only [List.mem_cons] at ha
+    simp only [refSum]
+    rcases ha with rfl | ha
+    · omega
+    · have := ih ha; omega
+
+theorem le_resSum_of_mem {ps : List PodAlloc} {a : PodAlloc} (hg : ∀ p ∈ ps, Good p) (ha : a ∈ ps) (n : Nat) :
+    (numaAt a.numa n).1 ≤ (resSum ps n).1 ∧ (numaAt a.numa n).2 ≤ (resSum ps n).2 := by
+  induction ps with
+  | nil => simp at ha
+  | cons p ps ih =>
+    simp only [List.mem_cons] at ha
+    simp only [resSum]
+    have hrest := resSum_nonneg ps (fun x hx => hg x (by simp [hx])) n
+    rcases ha with rfl | ha
+    · omega
+    · have := ih (fun x hx => hg x (by simp [hx])) ha
+      have := numaAt_nonneg p.numa (hg p (by simp)) n
+      omega
+
+/-- **nothing taken before the restart is free after it** (CPU part): in the cache rebuilt from the
+    survivors of any history, every CPU of every surviving allocation has RefCount ≥ its holders,
+    and is not offered as available once `maxRef` survivors hold it. -/
+theorem taken_cpu_not_free (topo : List Nat) (maxRef : Nat) (evs : List Ev) (h : GoodEvs evs)
+    (l : List PodAlloc) (hl : l.Perm (survivors evs)) (a : PodAlloc) (ha : a ∈ l) (c : Nat) (hc : c ∈ a.cpus) :
+    1 ≤ refCount (build topo l) c ∧
+    refCount (build topo l) c = refSum (survivors evs) c ∧
+    (maxRef ≤ refSum (survivors evs) c → c ∉ availCPUs topo maxRef (build topo l)) := by
+  have heq := live_eq_rebuilt topo maxRef evs h l hl
+  have hinv := ledger_exact topo evs h
+  have hpods := pods_eq_survivors topo evs h
+  have hsum : refCount (build topo l) c = refSum (survivors evs) c := by
+    rw [← heq.ref c, refCount, hinv.ref c, hpods]
+  have hmem : a ∈ survivors evs := hl.mem_iff.1 ha
+  have hle := le_refSum_of_mem hmem c
+  have hpos : 1 ≤ a.cpus.count c := List.count_pos_iff.2 hc
+  refine ⟨by omega, hsum, ?_⟩
+  intro hmax hav
+  simp only [availCPUs, List.mem_filter, decide_eq_true_eq] at hav
+  omega
+
+/-- **nothing taken before the restart is free after it** (NUMA amounts): the rebuilt ledger charges
+    every NUMA node with exactly the sum over the survivors, hence at least what each one holds. -/
+theorem taken_numa_not_free (topo : List Nat) (maxRef : Nat) (evs : List Ev) (h : GoodEvs evs)
+    (l : List PodAlloc) (hl : l.Perm (survivors evs)) (a : PodAlloc) (ha : a ∈ l) (n : Nat) :
+    getRes (build topo l).res n = resSum (survivors evs) n ∧
+    (numaAt a.numa n).1 ≤ (getRes (build topo l).res n).1 ∧
+    (numaAt a.numa n).2 ≤ (getRes (build topo l).res n).2 := by
+  have heq := live_eq_rebuilt topo maxRef evs h l hl
+  have hinv := ledger_exact topo evs h
+  have hpods := pods_eq_survivors topo evs h
+  have hsum : getRes (build topo l).res n = resSum (survivors evs) n := by
+    rw [← heq.res n, hinv.res n, hpods]
+  have hmem : a ∈ survivors evs := hl.mem_iff.1 ha
+  have hg : ∀ p ∈ survivors evs, Good p := by
+    intro p hp; rw [← hpods] at hp; exact hinv.good p hp
+  have := le_resSum_of_mem hg hmem n
+  rw [hsum]
+  exact ⟨rfl, this.1, this.2⟩
+
+/-- the informer handlers only ever `update` / `release`, so they preserve exactness as well. -/
+theorem onUpdate_inv (topo : List Nat) (s : St) (old : Option Obj) (o : Obj) (hs : Inv s)
+    (hg : ∀ an, o.annot = some an → ∀ r ∈ an.numa, 0 ≤ r.cpu ∧ 0 ≤ r.mem) :
+    Inv (onUpdate topo s old o) := by
+  unfold onUpdate
+  split
+  · split
+    · split
+      · exact inv_release topo s _ hs
+      · exact hs
+    · exact hs
+  · split
+    · exact inv_release topo s _ hs
+    · dsimp only
+      split
+      · exact hs
+      · next a hr =>
+        refine inv_update topo s a hs ?_
+        unfold restore at hr
+        split at hr
+        · cases hr
+        · split at hr
+          · cases hr
+          · cases hr
+            intro r hrm
+            cases ho : o.annot with
+            | none => simp [ho] at hrm
+            | some an => simp only [ho, Option.getD_some] at hrm; exact hg an ho r hrm
+
+theorem onDelete_inv (topo : List Nat) (s : St) (o : Obj) (hs : Inv s) : Inv (onDelete topo s o) := by
+  unfold onDelete
+  split
+  · exact hs
+  · exact inv_release topo s _ hs
+
+/-! ### non-vacuity and the exclusive-policy marker -/
+
+def exA : PodAlloc := { uid := 1, cpus := [0, 1], excl := 3, numa := [⟨0, 2000, 5⟩] }
+def exB : PodAlloc := { uid := 2, cpus := [0], excl := 2, numa := [⟨0, 1000, 0⟩, ⟨1, 0, 7⟩] }
+
+/-- the hypotheses are satisfiable on a history with sharing, a release and a re-add. -/
+example : GoodEvs [.upd exA, .upd exB, .rel 1, .upd exA] := by
+  intro a ha
+  simp only [List.mem_cons, List.mem_nil_iff, or_false, Ev.upd.injEq, reduceCtorEq, false_or] at ha
+  rcases ha with rfl | rfl | rfl <;> (intro r hr; revert r; decide)
+
+example : survivors [.upd exA, .upd exB, .rel 1, .upd exA] = [exA, exB] := by decide
+example : refCount (run [0, 0] [.upd exA, .upd exB, .rel 1, .upd exA]) 0 = 2 := by decide
+example : getRes (run [0, 0] [.upd exA, .upd exB, .rel 1, .upd exA]).res 0 = (3000, 5) := by decide
+
+/-- FULL STATEMENT (does NOT hold for the code as written): the rebuilt ledger is identical to the
+    live one *including* the per-CPU `ExclusivePolicy` marker, for every delivery order:
+      `∀ topo l₁ l₂, l₁.Perm l₂ → Nodup uids → ∀ c, markOf (build topo l₁).mark c = markOf (build topo l₂).mark c`.
+    `addPodAllocation` assigns `cpuInfo.ExclusivePolicy = request.CPUExclusivePolicy` (last writer
+    wins), so two holders of one CPU with different policies make the marker order dependent.
+    Known finding `C19:numa-excl-mark-last-writer`. -/
+theorem excl_mark_order_counterexample :
+    ¬ (∀ (topo : List Nat) (l₁ l₂ : List PodAlloc), l₁.Perm l₂ → (l₁.map (·.uid)).Nodup →
+        ∀ c, markOf (build topo l₁).mark c = markOf (build topo l₂).mark c) := by
+  intro h
+  have := h [0, 0] [exA, exB] [exB, exA] (List.Perm.swap exB exA []) (by decide) 0
+  revert this
+  decide
+
+
+/-! ## C. the codec: CPU-set text and the persisted record -/
+
+/-- **T1 cpuset_roundtrip**: for every finite CPU set within `[0, 4096]` (as a strictly ascending
+    list) `cpuset.Parse(set.String())` succeeds and returns exactly the set — at the byte level
+    (decimal digits, `-`, `,`; `strconv.Itoa`, `strings.Split`, `strconv.ParseInt(_, 10, 32)`). -/
+theorem cpuset_roundtrip (s : List Nat) (hasc : s.Pairwise (· < ·)) (hmax : ∀ x ∈ s, x ≤ 4096) :
+    parseText (formatText s) = some s :=
+  parse_format s hasc hmax
+
+/-- the bound of T1 is the code's own (`maxAvailableCPUCount`): a run that ends above 4096 is
+    written as a range and rejected when read back, so a CPU id above 4096 would not survive. -/
+theorem cpuset_roundtrip_bound_needed : parseText (formatText [4096, 4097]) = none := by
+  have h1 : formatText [4096, 4097] = fmtRng ⟨4096, 4097⟩ := by
+    simp [formatText, compress, compressGo, joinComma]
+  have h2 : parsePiece (fmtRng ⟨4096, 4097⟩) = none := by
+    unfold parsePiece
+    rw [splitOn_fmtRng]
+    simp only [show ¬ (4096 : Nat) = 4097 by omega, if_false]
+    rw [parseInt32_itoa _ (by decide), parseInt32_itoa _ (by decide)]
+    simp [maxCPU]
+  unfold parseText
+  rw [h1, if_neg (fmtRng_ne_nil _), splitOn_not_mem _ _ (fmtRng_no_comma _)]
+  simp [parsePieces, h2]
+
+/-- `Parse` also accepts what `String` never writes (unsorted, overlapping, signed, zero-padded). -/
+example : parseText [51, 44, 49, 45, 50, 44, 50] = some [1, 2, 3] := by decide        -- "3,1-2,2"
+example : parseText [43, 49, 44, 48, 48, 55] = some [1, 7] := by decide               -- "+1,007"
+example : parseText [49, 45] = none := by decide                                     -- "1-"
+example : parseText [48, 45, 53, 48, 48, 48] = none := by decide                     -- "0-5000"
+
+/-- **T2 restore ∘ persist = id**: the allocation an informer event handler restores from the record
+    written at PreBind is exactly the allocation that was reserved (CPU set within [0,4096],
+    something allocated). -/
+theorem restore_persist (a : PodAlloc) (hasc : a.cpus.Pairwise (· < ·)) (hmax : ∀ c ∈ a.cpus, c ≤ 4096)
+    (hne : a.cpus ≠ [] ∨ a.numa ≠ []) : restore a.uid a.excl (persist a) = some a := by
+  unfold restore persist
+  simp only [cpuset_roundtrip a.cpus hasc hmax]
+  rw [if_neg]
+  intro h
+  rcases hne with h1 | h1
+  · exact h1 h.2
+  · exact h1 (List.eq_nil_of_length_eq_zero h.1)
+
+/-- an allocation that took nothing restores to "nothing to record" (the handler returns early). -/
+theorem restore_persist_empty (a : PodAlloc) (h1 : a.cpus = []) (h2 : a.numa = []) :
+    restore a.uid a.excl (persist a) = none := by
+  unfold restore persist
+  simp [h1, h2, formatText, compress, joinComma, parseText]
+
+/-- the bound, running object the API server holds for allocation `a` after PreBind. -/
+def objOf (a : PodAlloc) : Obj :=
+  { uid := a.uid, assigned := true, term := false, excl := a.excl, annot := some (persist a) }
+
+/-- **the informer add / update event of a persisted object is exactly `resourceManager.Update`
+    with the allocation that was reserved** — this ties the handler-level replay to `build`. -/
+theorem replay_event_eq_update (topo : List Nat) (s : St) (old : Option Obj) (a : PodAlloc)
+    (hasc : a.cpus.Pairwise (· < ·)) (hmax : ∀ c ∈ a.cpus, c ≤ 4096) (hne : a.cpus ≠ [] ∨ a.numa ≠ []) :
+    onUpdate topo s old (objOf a) = update topo s a := by
+  unfold onUpdate objOf
+  simp only [Bool.not_true, Bool.false_eq_true, if_false, Option.getD_some]
+  rw [restore_persist a hasc hmax hne]
+
+/-- a terminated or deleted object releases its allocation whatever its annotation says. -/
+theorem terminated_releases (topo : List Nat) (s : St) (old : Option Obj) (o : Obj)
+    (h1 : o.assigned = true) (h2 : o.term = true) : onUpdate topo s old o = release topo s o.uid := by
+  unfold onUpdate
+  simp [h1, h2]
+
+example : restore exA.uid exA.excl (persist exA) = some exA :=
+  restore_persist exA (by decide) (by decide) (by decide)
+
+/-! ## D. deviceshare ledger (model and proofs: Model/C19Dev.lean, Proofs/C19Dev.lean) -/
+
+/-- live = rebuilt for the device cache: after every well-formed history of add / delete /
+    same-allocation update events, `deviceUsed`, `deviceFree` and `allocateSet` of a fresh cache fed
+    one add per surviving allocation equal those of the live cache. -/
+theorem dev_live_eq_rebuilt (total : Dev.Tab) (h : List Dev.Ev) (wf : Dev.WellFormed h) :
+    let live := Dev.run (Dev.St.init total) h
+    let fresh := Dev.build total (Dev.survivors h)
+    (∀ k, Dev.usedAt live k = Dev.usedAt fresh k) ∧ (∀ k, Dev.freeAt live k = Dev.freeAt fresh k) ∧
+    live.aset = fresh.aset ∧ ∀ un, Dev.render un live = Dev.render un fresh :=
+  Dev.live_eq_rebuilt total h wf
+
+/-- order independence of the device-cache replay (distinct (node, type, pod) keys, amounts ≥ 0). -/
+theorem dev_order_independent (total : Dev.Tab) {l₁ l₂ : List Dev.Group} (hp : l₁.Perm l₂)
+    (hnd : (l₁.map Dev.Group.key).Nodup) (hnn : ∀ g ∈ l₁, g.Nonneg) :
+    (∀ k, Dev.usedAt (Dev.build total l₁) k = Dev.usedAt (Dev.build total l₂) k) ∧
+    (∀ k, Dev.freeAt (Dev.build total l₁) k = Dev.freeAt (Dev.build total l₂) k) ∧
+    (∀ key, Dev.recorded (Dev.build total l₁).aset key = Dev.recorded (Dev.build total l₂).aset key) :=
+  Dev.build_perm total hp hnd hnn
+
+/-- a duplicate add event is skipped by the `isValid` guard (any state, any allocation). -/
+theorem dev_dup_add_noop (st : Dev.St) (g : Dev.Group) :
+    Dev.addGroup (Dev.addGroup st g) g = Dev.addGroup st g :=
+  Dev.dup_add_noop st g
+
+/-- a same-allocation update of a surviving pod leaves used / free / membership unchanged. -/
+theorem dev_same_update_noop (total : Dev.Tab) (h : List Dev.Ev) (g : Dev.Group)
+    (wf : Dev.WellFormed (h ++ [Dev.Ev.upd g])) (hg : g ∈ Dev.survivors h) :
+    let st := Dev.run (Dev.St.init total) h
+    (∀ k, Dev.usedAt (Dev.step st (.upd g)) k = Dev.usedAt st k) ∧
+    (∀ k, Dev.freeAt (Dev.step st (.upd g)) k = Dev.freeAt st k) ∧
+    (∀ key, Dev.recorded (Dev.step st (.upd g)).aset key = Dev.recorded st.aset key) :=
+  Dev.same_update_noop total h g wf hg
+
+/-- no device share taken before the restart is free after it. -/
+theorem dev_taken_not_free (total : Dev.Tab) (h : List Dev.Ev) (wf : Dev.WellFormed h) (k : Dev.Slot) :
+    let fresh := Dev.build total (Dev.survivors h)
+    (∀ g ∈ Dev.survivors h, Dev.gAmt g k ≤ Dev.usedAt fresh k) ∧
+    Dev.usedAt fresh k = Dev.taken (Dev.survivors h) k ∧
+    Dev.freeAt fresh k = max 0 (Dev.get total k - Dev.taken (Dev.survivors h) k) :=
+  Dev.taken_not_free total h wf k
+
+/-! ## R. reservation ledger (model and proofs: Model/C19Rsv.lean, Proofs/C19Rsv.lean) -/
+
+/-- live = rebuilt for one ReservationInfo: after every history of assign / bound / same-assignment
+    update / delete / reservation-update, Allocated and AssignedPods equal what a fresh scheduler
+    rebuilds from the surviving assignments (reservation delivered before its pods). -/
+theorem rsv_live_eq_rebuilt (rid node : Nat) (once : Bool) (decl : Rsv.Req) (h : List Rsv.LiveOp) :
+    (∀ d, (Rsv.run (Rsv.newInfo rid node once decl, []) h).1.allocated d =
+          (Rsv.build (Rsv.newInfo rid node once decl) (Rsv.run (Rsv.newInfo rid node once decl, []) h).2).allocated d) ∧
+    (Rsv.run (Rsv.newInfo rid node once decl, []) h).1.pods.Perm
+      (Rsv.build (Rsv.newInfo rid node once decl) (Rsv.run (Rsv.newInfo rid node once decl, []) h).2).pods :=
+  Rsv.live_eq_rebuilt rid node once decl h
+
+/-- order independence of the pod replay into a freshly created ReservationInfo. -/
+theorem rsv_order_independent {l₁ l₂ : List (Nat × Rsv.Req)} (h : l₁.Perm l₂) (nd : (l₁.map Prod.fst).Nodup)
+    (rid node : Nat) (once : Bool) (decl : Rsv.Req) :
+    (∀ d, (Rsv.build (Rsv.newInfo rid node once decl) l₁).allocated d =
+          (Rsv.build (Rsv.newInfo rid node once decl) l₂).allocated d) ∧
+    (Rsv.build (Rsv.newInfo rid node once decl) l₁).pods.Perm (Rsv.build (Rsv.newInfo rid node once decl) l₂).pods :=
+  Rsv.build_perm_fresh h nd rid node once decl
+
+theorem rsv_dup_add_noop (ri : Rsv.Info) (pid : Nat) (q q' : Rsv.Req) :
+    Rsv.addAssigned (Rsv.addAssigned ri pid q) pid q' = Rsv.addAssigned ri pid q :=
+  Rsv.dup_add_noop ri pid q q'
+
+theorem rsv_same_update_noop {ri : Rsv.Info} (w : Rsv.WF ri) {pid : Nat} {q : Rsv.Req}
+    (h : ri.pods.lookup pid = some q) :
+    (∀ d, (Rsv.addAssigned (Rsv.removeAssigned ri pid) pid q).allocated d = ri.allocated d) ∧
+    (Rsv.addAssigned (Rsv.removeAssigned ri pid) pid q).pods.Perm ri.pods ∧
+    Rsv.WF (Rsv.addAssigned (Rsv.removeAssigned ri pid) pid q) :=
+  Rsv.same_update_noop w h
+
+/-- no reserved amount taken before the restart is free after it: the rebuilt Allocated is the sum of
+    the masked requests of the surviving assigned pods. -/
+theorem rsv_allocated_eq_sum (rid node : Nat) (once : Bool) (decl : Rsv.Req) (h : List Rsv.LiveOp) (d : Nat) :
+    (Rsv.run (Rsv.newInfo rid node once decl, []) h).1.allocated d =
+      Rsv.sumMasked decl d (Rsv.run (Rsv.newInfo rid node once decl, []) h).2 :=
+  Rsv.rebuilt_allocated_eq_sum rid node once decl h d
+
+/-- FULL STATEMENT (does NOT hold for the code as written): the reservation cache rebuilt from the
+    surviving objects is independent of the relative delivery order of pods and reservations.
+    `cache.updatePod` drops a pod whose reservation UID is not in the cache yet and nothing replays
+    it when the Reservation arrives: pod-then-reservation leaves the reservation with nothing
+    allocated.  Finding `C19:rsv-early-pod-lost`. -/
+theorem rsv_early_pod_lost_counterexample :
+    ((Rsv.handlerUpdate (({} : Rsv.Cache).updateReservation 1 1 false [8000, 64, 8]) none
+        { pid := 1, rid := some 1, q := [1000, 5, -1], term := false }).get 1).map (fun i => i.allocated 0)
+      = some 1000 ∧
+    (((Rsv.handlerUpdate ({} : Rsv.Cache) none
+        { pid := 1, rid := some 1, q := [1000, 5, -1], term := false }).updateReservation 1 1 false [8000, 64, 8]).get 1).map
+        (fun i => i.allocated 0)
+      = some 0 := by
+  decide
+
 end KoordVerif.C19
